@@ -1,0 +1,7 @@
+//go:build !verif
+
+package swarm
+
+// verifYield is a schedule point of the verification harness; without the verif build tag
+// it does nothing (and is inlined away).
+func verifYield(string) {}
